@@ -331,7 +331,7 @@ PROPS = {
                 "message's bytes only; non-trivial (bubble) = some Write had to wait behind another transaction AND a transaction > 32 KiB was "
                 "delivered; (live) = a client received > 64 KiB in the round; TestC14Sizes: exhaustive sweep, one server-originated transaction of every "
                 "total wire length from 56 to ~9 050 bytes (quick) / ~65 050 bytes (thorough), each must arrive whole with nothing left over "
-                "(non-trivial = longer than 512 bytes); distinct = hash(plan) | wire length; the request mix includes requests about another connected user (get-client-info, invite-to-new-chat), whose reply belongs to the requester",
+                "(non-trivial = longer than 512 bytes); distinct = hash(plan) | wire length; the request mix includes requests about another connected user (get-client-info, invite-to-new-chat), whose reply belongs to the requester; the mix also holds account edits that can collide (several administrators creating / deleting the same login, a stale rename onto a taken login)",
         "assumptions": ["goroutine schedules are sampled, not enumerated; the fair writer removes luck for the multi-Write class only",
                         "live engine inputs are a pure function of VERIF_SEED, the schedule is not reproducible (the failing round is printed)"],
         "quick": {"runs": [{"test": "^TestC14$", "shards": 10, "checks": 25, "timeout": 900},
